@@ -36,7 +36,8 @@ DecompositionIsNormal == node[1] = "dec" =>
 MarksAreOrdered == node[1] = "mark" =>
     /\ M[2] = CCC(M[1]) /\ M[2] > 0
     /\ LET s == <<97, Mk(1), M[1], Mk(2), 98, M[1], Mk(3)>>  n == NFKD(s) IN
-         /\ Ordered(n) /\ NFKD(n) = n /\ Len(n) >= Len(s)
+         /\ Ordered(n) /\ NFKD(n) = n /\ Len(n) >= Len(s) /\ NFKDDef(s) = n
+         /\ NFKD(<<M[1], 120, 121, Mk(1), 122>>) = NFKDDef(<<M[1], 120, 121, Mk(1), 122>>)  \* cut into pieces or not
          /\ NFKD(<<97, M[1], Mk(1)>>) = NFKD(<<97>> \o NFKD(<<M[1], Mk(1)>>))      \* normalising a part first changes nothing
     /\ (Decomp(M[1]) = <<M[1]>> =>           \* (a mark that decomposes into several marks lengthens the run)
             StreamSafeNFKD(<<97>> \o [i \in 1..30 |-> M[1]]) = NFKD(<<97>> \o [i \in 1..30 |-> M[1]]))
